@@ -68,6 +68,22 @@ func GenDaemon(prop string, seed uint64, tier string) *DaemonScenario {
 			if r.Bool(12) {
 				sc.DKGSteps = append(sc.DKGSteps, DKGStep{K: "flow"})
 			}
+			if r.Bool(25) {
+				// a pending proposal, then something that needs one
+				sc.DKGSteps = append(sc.DKGSteps, DKGStep{K: "cmd", Node: 0, S: "reshare_ok"})
+				switch {
+				case prop == "C08" || r.Bool(30):
+					sc.DKGSteps = append(sc.DKGSteps, DKGStep{K: "race", S: r.Pick("accept", "reject"), A: []int{0, 1, 50, 500, 3000, 20000}[r.Intn(6)]})
+				default:
+					sc.DKGSteps = append(sc.DKGSteps, DKGStep{K: "accept_after_reject", A: r.Intn(4)})
+				}
+			}
+			if prop != "C08" && r.Bool(25) {
+				sc.DKGSteps = append(sc.DKGSteps, DKGStep{K: "flow"}, DKGStep{K: "intercept", S: r.Pick("move_remaining_to_leaving", "move_remaining_to_leaving", "threshold", "timeout", "catchup", "swap_remaining")})
+			}
+		}
+		if prop == "C08" && sc.Yield.PerMill < 20 {
+			sc.Yield = YieldPlan{Seed: r.U64(), PerMill: 100, MaxNs: 2_000_000}
 		}
 		sc.DKGSteps = append(sc.DKGSteps, DKGStep{K: "flow"})
 		sc.Script = nil
@@ -151,11 +167,19 @@ func GenDaemon(prop string, seed uint64, tier string) *DaemonScenario {
 			add(Act{AtMs: t + 200, Kind: "fuzz", Node: n, A: int64(r.Range(5, 30))})
 		}
 		use["stop"] = false
+		if prop == "C15" && r.Bool(30) {
+			// key-generation histories with forged packets: what a node answers to them is scanned too
+			c9 := GenDaemon("C09", seed, tier)
+			c9.Prop, c9.Mode = "C15", "secrets"
+			return c9
+		}
 		if prop == "C15" {
 			sc.Mode = "secrets"
 			if r.Bool(60) {
 				sc.Extra = 2
 				sc.Reshares = []ResharePlan{{AtRound: r.Range(2, 3), Join: []int{sc.N + 1}, NewT: r.Range((sc.N+1)/2+1, sc.N+1)}}
+				// a node folder restored with looser file modes before the resharing rewrites the share
+				add(Act{AtMs: g0 + int64(sc.Reshares[0].AtRound-1)*periodMs - 500, Kind: "loosen_modes", Node: r.Intn(sc.N)})
 				rounds = sc.Reshares[0].AtRound + 14 + (sc.KickoffS+3*sc.PhaseS)/sc.PeriodS
 				faultEnd = g0 + int64(rounds)*periodMs
 			}
@@ -171,7 +195,17 @@ func GenDaemon(prop string, seed uint64, tier string) *DaemonScenario {
 		for k := r.Range(2, 4); k > 0; k-- {
 			add(Act{AtMs: at(), Kind: "route", Node: r.Intn(sc.N)})
 		}
-		if r.Bool(70) {
+		if sc.Backend == "bolt" && r.Bool(35) {
+			// a chain whose database got damaged while it was stopped: loading it fails half-way; the
+			// operator then removes it for good
+			n, id := r.Intn(sc.N), sc.BeaconIDs[r.Intn(len(sc.BeaconIDs))]
+			t := at()
+			add(Act{AtMs: t, Kind: "stop_beacon", Node: n, S: id})
+			add(Act{AtMs: t + 200, Kind: "corrupt_db", Node: n, S: id})
+			add(Act{AtMs: t + 400, Kind: "load_beacon", Node: n, S: id})
+			add(Act{AtMs: t + 1400, Kind: "stop_beacon", Node: n, S: id})
+			add(Act{AtMs: t + 1800, Kind: "route", Node: n})
+		} else if r.Bool(70) {
 			n, id := r.Intn(sc.N), sc.BeaconIDs[r.Intn(len(sc.BeaconIDs))]
 			t := at()
 			add(Act{AtMs: t, Kind: "stop_beacon", Node: n, S: id})
